@@ -1451,8 +1451,14 @@ hdf_read_attrs(XDR *xdrs, NC *handle, int32 vg)
                     HGOTO_FAIL(NULL);
 
                 if (type == NC_CHAR) {
-                    if ((attr_size = VFfieldorder(vs, 0)) == FAIL)
+                    int32 order = VFfieldorder(vs, 0);
+
+                    if (order == FAIL)
                         HGOTO_FAIL(NULL);
+                    /* DFNT_CHAR is written as one record of order n; the other character
+                       types (DFNT_UCHAR8, little-endian flavours) as n records of order 1 */
+                    if (order > 1 || attr_size <= 1)
+                        attr_size = order;
 
                     ((char *)values)[attr_size] = '\0';
                 }
